@@ -9,7 +9,7 @@
    read through the type (Member(n).Get), the init-hash, and IsInstance against every accepted
    definition of the world.  Per pair of constructed objects: Equals (false / true / raised / not applicable). *)
 From Coq Require Import ZArith NArith Bool List.
-From PcoreV Require Import Model.Base Model.Obj.
+From PcoreV Require Import Model.Base Model.Obj Model.ObjNest.
 Import ListNotations.
 Open Scope Z_scope.
 
@@ -150,3 +150,35 @@ Definition equals_check (w : world) : bool :=
 Definition define_mismatches (ws : list world) : list N := failing define_check ws.
 Definition object_mismatches (ws : list world) : list N := failing object_check ws.
 Definition equals_mismatches (ws : list world) : list N := failing equals_check ws.
+
+(* ---- the nested family (Model/ObjNest.v): attributes whose type is or contains another Object type ----
+   One case per construction: the name and the constructor attributes (layout order, declared values, types - an Object type
+   contains the attributes of the type it refers to) of the type, the arguments as given (a nested instance in normal form, a
+   nested init-hash as a Hash), the observed outcome (the normal form of the object read attribute by attribute through Get, or
+   the class of the rejection) and the observed init-hash.  Besides the outcome and the init-hash the obligation evaluates, on
+   every constructed object, the hypotheses and conclusions of the theorems C17_nested_*: the type is well formed, the object is
+   an instance of its type, and coercing its full init-hash form gives the object back. *)
+Record ncase := mkNCase { nc_name : str; nc_attrs : nty; nc_nargs : list nvalue; nc_nobs : nres; nc_nih : list (str * nvalue) }.
+
+Definition nres_eqb (a b : nres) : bool :=
+  match a, b with
+  | NOk x, NOk y => nvalue_eqb x y
+  | NIllegalArguments, NIllegalArguments | NMissing, NMissing | NCoerceFails, NCoerceFails => true
+  | _, _ => false
+  end.
+
+Definition nkv_eqb (a b : str * nvalue) : bool := str_eqb (fst a) (fst b) && nvalue_eqb (snd a) (snd b).
+
+Definition nested_check (c : ncase) : bool :=
+  let t := NObj (nc_name c) (nc_attrs c) in
+  nres_eqb (nnew (nc_name c) (nc_attrs c) (nc_nargs c)) (nc_nobs c)
+  && match nc_nobs c with
+     | NOk (NVObj m vals) =>
+       list_eqb nkv_eqb (ninit_hash (nc_attrs c) vals) (nc_nih c)
+       && nwf t && ninst t (NVObj m vals)
+       && match coerce t (to_init t (NVObj m vals)) with Some v => nvalue_eqb v (NVObj m vals) | None => false end
+     | NOk _ => false
+     | _ => true
+     end.
+
+Definition nested_mismatches (cs : list ncase) : list N := failing nested_check cs.
